@@ -191,7 +191,16 @@ namespace foonathan
                         auto no_nodes = (count * node_size + pool.node_size() - 1) / pool.node_size();
                         auto needed   = no_nodes * pool.node_size();
                         detail::check_allocation_size<bad_array_size>(
-                            needed, [&] { return next_capacity() - pool.alignment() + 1; }, info());
+                            needed,
+                            [&]
+                            {
+                                // the reservation is put between debug fences and aligned for max_alignment
+                                auto fence = detail::debug_fence_size;
+                                auto overhead =
+                                    2 * fence + detail::align_offset(fence, detail::max_alignment);
+                                return next_capacity() - overhead - pool.alignment() + 1;
+                            },
+                            info());
 
                         block = reserve_memory(pool, needed);
                         pool.insert(block.memory, block.size);
